@@ -60,7 +60,7 @@ EvtOf(e) == [ev |-> e.ev, n |-> e.n, a |-> ArgOf(e), rk |-> e.rk, hr0 |-> e.hr0,
 NoNode == [id |-> 0]
 NoStor == [hs |-> EmptyHS, conf |-> EmptyConf, ti |-> 0, tt |-> 0, ents |-> <<>>, snapi |-> 0, snapt |-> 0,
            snapconf |-> EmptyConf, snapdata |-> ""]
-NoApp == [applied |-> 0, sm |-> "", queue |-> <<>>]
+NoApp == [applied |-> 0, sm |-> "", queue |-> <<>>, hasProbe |-> FALSE]
 NoEvt == [ev |-> "None", n |-> 0, a |-> [x |-> 0], rk |-> "ok", hr0 |-> FALSE, hr |-> FALSE,
           gen |-> <<>>, out |-> <<>>, rd |-> [number |-> 0]]
 NoPre == [up |-> FALSE, node |-> NoNode, stor |-> NoStor, handedTo |-> 0]
@@ -179,7 +179,7 @@ ResetAll(e) ==
 NetEvent(e) ==
     /\ UNCHANGED <<node, up, stor, dur, app, cfg, run, rdi>>
     /\ pre' = NoPre
-    /\ evt' = [NoEvt EXCEPT !.ev = e.ev]
+    /\ evt' = [NoEvt EXCEPT !.ev = e.ev, !.a = IF "a" \in DOMAIN e THEN e.a ELSE [x |-> 0]]
     /\ gh' = gh
 
 NodeEvent(e) ==
